@@ -24,13 +24,15 @@ def main(tier, seed, replay):
         k.model_check("MC_Rel", mc_consts(ops=3, **REL), inv, props)
         k.must_find("MC_Rel_F8", mc_consts(ops=4, impl="ImplF8", **REL), inv)
         k.must_find("MC_Rel_F17", mc_consts(ops=5, impl="ImplF17", **REL), inv)
-        k.validate_profile("rel", 350)
+        k.validate_profile("rel", 200)
         k.validate_profile("rel_kf", 100, known=("F17",))
         k.validate_profile("rel_vis", 100, known=("F17",))
         k.validate_profile("kf_f17", 1, known=("F17",))
         k.replay_behaviours("TLC_walks", mc_consts(kinds=("spawn", "despawn", "insert", "remove", "mark", "unmark"), ents=("e1", "e2"), clients=("c1", "c2"), ops=8, ticks=6, idle=3, cframes=8), 150, depth=80)
         k.replay_behaviours("EXH_Struct", mc_consts(ops=3, **dict(struct, idle=1, cframes=0)), 0, invariants=inv)
         k.replay_behaviours("EXH_Rel", mc_consts(ops=3, **dict(REL, cframes=0)), 0, invariants=inv, known=("F17",))
+        for pol in ("white", "black"):
+            k.replay_behaviours(f"EXH_Vis_{pol}", mc_consts(policy=pol, kinds=("spawn", "despawn", "setvis"), ops=4, ticks=2, idle=1, cframes=0), 0, invariants=inv)
     else:
         k.model_check("MC_Struct", mc_consts(ops=5, **struct), inv, props, timeout=3000)
         k.model_check("MC_Struct2", mc_consts(ents=("e1", "e2"), ops=4, kinds=("spawn", "despawn", "insert", "remove"), ticks=2, idle=1), inv, props, timeout=3000)
